@@ -14,7 +14,7 @@ RULE = (
     "Hypothesis draws a result set: towers 1..4 (distinct names, lat/lon/height each) x steps 1..4 x {2-D, 3-D with 2..4 levels} on "
     "grids of 2..5 cells per axis; each of the two fields independently one of: all finite doubles including negatives, zeros, "
     "subnormals and +-1e300 / float32 arrays as a single-precision run returns them / doubles that are all exactly representable in "
-    "single precision / all zeros / small integers / dyadic fractions; unique string or integer timestamps; per-step met values with ustar or z0 "
+    "single precision / all zeros / small integers / dyadic fractions; unique string or integer timestamps; per-step met values with ustar, z0 or both "
     "forcing; kind=real instead runs the multi-tower driver on a tiny solver configuration. The set is assembled in the documented "
     "shape (tower -> list of per-step dicts, configuration order), saved, loaded back. Oracle: footprint[t,k] and concentration[t,k] "
     "array_equal to the inputs (as float64), x/y/z equal, time labels == str(timestamp), tower names in order with their own "
@@ -54,7 +54,7 @@ def _field_values(n, kind="generic"):
 def _case(draw):
     if draw(st.integers(0, 9)) == 0:
         return {"kind": "real", "ntow": draw(st.integers(1, 3)), "nt": draw(st.integers(1, 3)),
-                "three_d": draw(st.booleans()), "z0forcing": draw(st.booleans()),
+                "three_d": draw(st.booleans()), "z0forcing": draw(st.sampled_from([False, True, "both"])),
                 "precision": draw(st.sampled_from(["single", "double"]))}
     ntow, nt = draw(st.integers(1, 4)), draw(st.integers(1, 4))
     nx, ny = draw(st.integers(2, 5)), draw(st.integers(2, 5))
@@ -78,7 +78,7 @@ def _case(draw):
         # heights in the order the levels were requested: ascending or not
         "zlev": draw(st.lists(gen.fl(0.01, 100.0), min_size=max(nlev, 1), max_size=max(nlev, 1), unique=True)),
         "towers": [[draw(gen.fl(-60.0, 60.0)), draw(gen.fl(-180.0, 180.0)), draw(gen.fl(1.0, 50.0))] for _ in range(ntow)],
-        "z0forcing": draw(st.booleans()),
+        "z0forcing": draw(st.sampled_from([False, True, "both"])),
         "drop_first": draw(st.integers(0, 3)) == 0,  # the configuration has one more (earlier) step than is exported
         "met": [[draw(gen.fl(0.05, 1.0)), draw(gen.fl(-500.0, 500.0)), draw(gen.fl(0.1, 20.0)), draw(gen.fl(0.0, 360.0))]
                 for _ in range(nt)],
@@ -98,7 +98,7 @@ def _config(names, towers, z0forcing, met, ts, nx, ny, dx, dy, three_d=False, pr
     m = {"mol": [r[1] for r in met], "wind_speed": [r[2] for r in met], "wind_dir": [r[3] for r in met]}
     if z0forcing:
         m["z0"] = 0.05
-    else:
+    if not z0forcing or z0forcing == "both":  # "both": a measured friction velocity next to the site's roughness length
         m["ustar"] = [r[0] for r in met]
     if ts != list(range(len(met))):
         m["timestamps"] = ts
@@ -174,7 +174,7 @@ def check_case(case):
     ntow, nt = len(names), len(results[names[0]])
     three_d = zl is not None
     out.label(case["kind"], f"towers={ntow}", f"steps={nt}", "3-D" if three_d else "2-D",
-              "z0-forcing" if case["z0forcing"] else "ustar-forcing")
+              ("z0-and-ustar" if case["z0forcing"] == "both" else "z0-forcing") if case["z0forcing"] else "ustar-forcing")
     if case["kind"] == "synthetic":
         out.label(f"flx-{case.get('flx_kind', 'generic')}", f"conc-{case.get('conc_kind', 'generic')}",
                   "ts=" + type(case["timestamps"][0]).__name__)
